@@ -27,7 +27,8 @@ def enc_arg(x):
 def enc_rpart(p):
     if isinstance(p, tuple) and p[0] == "prim":
         return {"rk": "prim", "v": enc_val(p[1]), "key": NONE, "index": NONE, "value": NONE, "cond": NONE,
-                "label": V("none")}
+                "lcond": NONE, "mcond": NONE, "label": V("none")}
     return {"rk": p["rk"], "v": V("none"), "key": enc_arg(p["key"]), "index": enc_arg(p["index"]),
             "value": enc_arg(p["value"]), "cond": enc_arg(p["cond"]),
+            "lcond": enc_arg(p.get("lcond") if p["rk"] == "mol" else None), "mcond": enc_arg(p.get("mcond") if p["rk"] == "mol" else None),
             "label": V("none") if p["label"] is None else enc_val(p["label"])}
